@@ -379,7 +379,10 @@ func (v *Validator) lubRecord(a, b typeRecord) (cedarType, error) {
 				if v.strict {
 					return nil, err
 				}
-				// Permissive mode: drop attributes with incompatible types
+				// Permissive mode: the attribute exists in both records but has no usable
+				// type; keep it as an optional attribute of type Never so that `has` is
+				// typed Bool (not False) and the attribute cannot be used at any type.
+				attrs[k] = attributeType{typ: typeNever{}, required: false}
 				continue
 			}
 			attrs[k] = attributeType{
